@@ -139,11 +139,25 @@ class IntroduceFreshVariable:
         return True
 
     def global_mutations(self, node, input_):
+        if node.id in self.__equality_operands(input_):
+            # As operand of an equality the fresh variable would be
+            # eliminated again by smtlib.EliminateVariable, and then its
+            # declaration erased: a cycle
+            return []
         varname = Node(f'x{node.id}__fresh')
         if is_var(varname):
             return []
         var = Node('declare-const', varname, get_sort(node))
         return [Simplification({node.id: varname}, [var])]
+
+    def __equality_operands(self, input_):
+        """Return the ids of all operands of equalities in ``input_`` (kept
+        for as long as the same input is asked about)."""
+        if getattr(self, '_eq_input', None) is not input_:
+            self._eq_operands = set(c.id for n in nodes.dfs(input_)
+                                    if is_eq(n) for c in n[1:])
+            self._eq_input = input_
+        return self._eq_operands
 
     def __str__(self):
         return 'introduce fresh variable'
